@@ -106,3 +106,50 @@ Proof. intros H. unfold get_datapath. destruct (t =? 0) eqn:E0; [discriminate|].
 Lemma limit_spec has_pod dv rt :
   (0 < rt -> limit has_pod dv rt = rt / 8) /\ (rt <= 0 -> limit has_pod dv rt = if has_pod then dv else 0).
 Proof. unfold limit. split; intros H; [assert (0 <? rt = true) as -> by lia | assert (0 <? rt = false) as -> by lia]; reflexivity. Qed.
+
+(* ---- the daemon's side of the cluster IPAM (crdv2.go multiIP) ------------------------------------------- *)
+(* what the walk returns is bound to the pod in the record: a valid entry carrying the pod's name and not another uid,
+   on an attached interface *)
+Definition bound4 (es : list cif) (a : N) : Prop :=
+  exists e i, In e es /\ ce_inuse e = true /\ In i (ce_v4 e) /\ ip_match i = true /\ ci_addr i = a.
+Definition bound6 (es : list cif) (a : N) : Prop :=
+  exists e i, In e es /\ ce_inuse e = true /\ In i (ce_v6 e) /\ ip_match i = true /\ ci_addr i = a.
+
+Lemma last_match_in l a : last_match l = Some a -> exists i, In i l /\ ip_match i = true /\ ci_addr i = a.
+Proof.
+  unfold last_match. destruct (rev (filter ip_match l)) as [|i r] eqn:E; [discriminate|]. intros H; inversion H; subst.
+  assert (Hin : In i (rev (filter ip_match l))) by (rewrite E; left; reflexivity).
+  apply in_rev in Hin. apply filter_In in Hin. destruct Hin as [Hi Hm]. exists i. auto.
+Qed.
+
+Lemma crd_walk_sound all : forall es idx a4 a6 ae r4 r6 re,
+  (forall x, In x es -> In x all) ->
+  (forall a, a4 = Some a -> bound4 all a) -> (forall a, a6 = Some a -> bound6 all a) ->
+  (forall j e, ae = Some (j, e) -> In e all /\ ce_inuse e = true) ->
+  crd_walk es idx (a4, a6, ae) = (r4, r6, re) ->
+  (forall a, r4 = Some a -> bound4 all a) /\ (forall a, r6 = Some a -> bound6 all a) /\
+  (forall j e, re = Some (j, e) -> In e all /\ ce_inuse e = true).
+Proof.
+  induction es as [|e r IH]; intros idx a4 a6 ae r4 r6 re Hsub H4 H6 He Hw; cbn [crd_walk] in Hw.
+  - inversion Hw; subst. auto.
+  - destruct (ce_inuse e) eqn:Eu.
+    + eapply IH; [| | | |exact Hw].
+      * intros x Hx. apply Hsub. right. exact Hx.
+      * intros a Ha. destruct (last_match (ce_v4 e)) as [m|] eqn:Em.
+        -- inversion Ha; subst. destruct (last_match_in _ _ Em) as [i [Hi [Hm Hadr]]]. exists e, i. repeat split; try assumption. apply Hsub. left. reflexivity.
+        -- apply H4. exact Ha.
+      * intros a Ha. destruct (last_match (ce_v6 e)) as [m|] eqn:Em.
+        -- inversion Ha; subst. destruct (last_match_in _ _ Em) as [i [Hi [Hm Hadr]]]. exists e, i. repeat split; try assumption. apply Hsub. left. reflexivity.
+        -- apply H6. exact Ha.
+      * intros j e0 Hj. destruct (last_match (ce_v4 e)), (last_match (ce_v6 e)); try (inversion Hj; subst; split; [apply Hsub; left; reflexivity | exact Eu]).
+        apply (He j e0 Hj).
+    + eapply IH; [| | | |exact Hw]; try assumption. intros x Hx. apply Hsub. right. exact Hx.
+Qed.
+
+Theorem crd_pick_is_bound es r4 r6 re :
+  crd_walk es 1 (None, None, None) = (r4, r6, re) ->
+  (forall a, r4 = Some a -> bound4 es a) /\ (forall a, r6 = Some a -> bound6 es a) /\
+  (forall j e, re = Some (j, e) -> In e es /\ ce_inuse e = true).
+Proof.
+  intros H. eapply (crd_walk_sound es es 1 None None None); try exact H; try (intros; discriminate). intros x Hx; exact Hx.
+Qed.
